@@ -285,6 +285,27 @@ def _run_stage(case, res):
             return
     p = h.p
     res.count("C16.stage." + st)
+    if st != "never" and p.workflow.task_list:
+        # numeric edge values in the saved STATE (the quantifier names 0, 0.0, -1): the calculated times of a task may
+        # legitimately be exactly -1.0 or 0.0 (a FINISHED task upstream of an overshooting FF/SF successor drifts through
+        # -1.0) - values that coincide with "not calculated yet" markers. PERT fields are recalculated at the start of
+        # every step, so the continuation of original and restored project is not affected.
+        import random as _random
+        r3 = _random.Random("edge/%s/%s/%s" % (case["i"], case.get("k"), len(p.workflow.task_list)))
+        if r3.random() < 0.12:
+            t_ = r3.choice(p.workflow.task_list)
+            which = r3.randrange(5)
+            if which == 0:
+                t_.lst = t_.lft = -1.0
+            elif which == 1:
+                t_.est = t_.eft = t_.lst = t_.lft = -1.0
+            elif which == 2:
+                t_.lst = t_.lft = 0.0
+            elif which == 3:
+                t_.est = t_.eft = -1.0
+            else:
+                t_.lst, t_.lft = -1, -1
+            res.count("C16.edge_values_in_calculated_times")
     live = any(t.allocated_worker_list for t in p.workflow.task_list) or any(c.placed_workplace is not None for c in p.product.component_list)
     path1, e = save(res, p, "a")
     res.count("C16.writes")
